@@ -158,7 +158,21 @@ ASSUMPTIONS = ['received length <= capacity of the receive buffer: the hypothesi
                'the fourth (kernel) instance receiving oversized datagrams over real loopback sockets',
                'little-endian x86-64 host', 'operator new does not fail',
                'one datagram is handled to completion before the next (single-threaded SelectServer)']
-TRUSTED = [t for m in PARTS for t in m.TRUSTED]
+TRUSTED = [t for m in PARTS for t in m.TRUSTED] + [
+    'dispatch inventory (every packet type the receive paths switch on): Art-Net HandlePacket cases Poll, PollReply, Dmx, '
+    'TodRequest, TodData, TodControl, Rdm, IpProgram (size/version check then ignored), Sync/RdmSub/TimeCode/default (ignored; '
+    'OpAddress/OpInput are not cases of the switch): all in the proved model, EXCEPT the ArtRdm RESPONSE path for an input port '
+    'with a pending RDM request (HandleRDMResponse / RDMReply::FromFrame): neither modelled nor driven by the harness (no request '
+    'is ever pending).  E1.31: root vectors E131 / E131_REV2 proved; RPT(E1.33) / LLRP + RDM inflators proved but added to the root '
+    'by the harness only (olad does not register them); framing vectors DATA and DISCOVERY proved, anything else (incl. SYNC) is '
+    'not handled by the code; DMP vector SET_PROPERTY proved.  ShowNet: COMPRESSED_DMX modelled as-is, DMX_PACKET (0x202f) ignored '
+    'by the code.  SandNet: DMX, COMPRESSED_DMX proved, ADVERTISEMENT/default ignored by the code.  ESP Net: POLL, REPLY, DMX '
+    '(RAW/RLE; PAIRS ignored), ACK proved; the bytes of the reply/ack packets are compared with a reference node, not modelled.  '
+    'Pathport: first PDU only (as the code): DATA (XDMX_DATA_FLAT) proved, ARP_REQUEST proved incl. reply bytes, ARP_REPLY/default '
+    'ignored.  KiNET: receive and discard (no dispatch).',
+    'typed by hand (cannot be named from outside the function / are literals in the C++ as well): E131DiscoveryInflator page_header '
+    'size 2 and its field offsets 0/1, DecodeLength sizes 2/3, RLE masks 127 = 255 - REPEAT_FLAG, Art-Net port-type bit 0x80; KiNET '
+    'buffer size is regenerated from the source text of SocketReady and cross-checked against the capacity offered to RecvFrom']
 _PROVED = [m.NAME for m in PARTS if getattr(m, 'PROVED', True) and m.NAME != 'shownet']
 _ALL = ['shownet', 'acn', 'artnet', 'espnet', 'sandnet', 'pathport', 'kinet']
 _MISSING = [x for x in _ALL if x not in [m.NAME for m in PARTS]]
@@ -172,7 +186,13 @@ LEVEL_TEXT = ('Each receive handler is modelled in Coq as a program of explicit 
               'received length (sn_within), in particular for every datagram satisfying the syntactic guard sn_syn '
               '(dropped before an unreceived field is read, or the whole claimed block was received; proved to imply '
               'sn_within, and sn_within proved to imply its header part); termination / no division by zero hold for '
-              'all; the handler with the proposed fix is proved for all datagrams.  The ACN model also covers the '
+              'all; the handler with the proposed fix is proved for all datagrams and proved to agree with the code as it is '
+              'inside the guard.  HISTORY level: for every protocol, any sequence of datagrams with arbitrary stale tails '
+              'from any initial state ends in no hazard and gives outputs and final state independent of the tails '
+              '(ShowNet: under the state-independent guard sn_all).  CAPACITY-INDEPENDENT: for a buffer of any size and any '
+              'reported length < 2^31 every handler returns and does not divide by zero, and reads nothing at or beyond n '
+              'when the buffer holds n bytes; loop-level termination theorems state the measures.  All regenerated '
+              'constants are pinned by c06_<proto>_consts.  The ACN model also covers the '
               'E1.33 (RPT) / LLRP / RDM inflators\' header decoders, which olad does not register.  ' +
               ('NOT covered at all: ' + ', '.join(_MISSING) + '.  ' if _MISSING else '') +
               'What plugins do with accepted data afterwards (merging, RDM processing) is outside this property\'s models.')
